@@ -45,6 +45,16 @@ def forall(names, body_fn):
     return z3.ForAll(vs, body_fn(*vs))
 
 
+def qforall(vs, body, patterns=None):
+    """ForAll with explicit triggers where z3 accepts them (a trigger may not contain ite)."""
+    if patterns:
+        try:
+            return z3.ForAll(vs, body, patterns=patterns)
+        except z3.Z3Exception:
+            pass
+    return z3.ForAll(vs, body)
+
+
 def dom(st, d):
     return st.get("ddom", d)
 
@@ -121,6 +131,9 @@ class IcontractRegistry(Registry):
         h = apply_contract(spec, unit.node)
         short = spec.addr.split("::")[1]
         if "/" not in short and "." not in short:
+            import ast as _ast
+            if isinstance(unit.node, _ast.AsyncFunctionDef):
+                self.async_units.add(short)
             self.calls[short] = h
             mod = spec.addr.split("::")[0][:-3]
             self.calls["icontract.%s.%s" % (mod, short)] = h
